@@ -5,7 +5,7 @@ from __future__ import annotations
 import ast
 import copy
 
-from sa.core import AnalysisError, Report, loc, norm_src
+from sa.core import AnalysisError, Report, loc, norm_src, fresh_copy
 from sa.consteval import ev
 from sa.paths import dotted, calls_in, call_name
 
@@ -348,8 +348,8 @@ def run(repo, tier):
     if scalar is None or cplx is None:
         raise AnalysisError("diff_ulp: scalar / complex branches not found")
     # ---- R14.1
-    body = [_Dtype().visit(copy.deepcopy(st)) for st in scalar.body]
-    swapped = [_Swap().visit(_Dtype().visit(copy.deepcopy(st))) for st in scalar.body]
+    body = [_Dtype().visit(fresh_copy(st)) for st in scalar.body]
+    swapped = [_Swap().visit(_Dtype().visit(fresh_copy(st))) for st in scalar.body]
     a, b = _canon_block(body), _canon_block(swapped)
     ok = a == b
     detail = ""
